@@ -31,24 +31,24 @@ theorem runFrom_moves (items : List Item) : ∀ st : HeapState,
 def HNode.key (n : HNode) : String × Bool := (n.var, n.eff)
 
 theorem runFrom_nodes (items : List Item) : ∀ st : HeapState,
-    (runFrom st items).nodes.map HNode.key = st.nodes.map HNode.key ++ ilDecls items := by
+    (runFrom st items).nodes.map HNode.key = st.nodes.map HNode.key ++ heapDecls items := by
   induction items with
-  | nil => intro st; simp [runFrom, ilDecls]
+  | nil => intro st; simp [runFrom, heapDecls]
   | cons it items ih =>
     intro st
     have : runFrom st (it :: items) = runFrom (heapStep st it) items := rfl
     rw [this, ih]
     cases it with
-    | comment s => simp [heapStep, ilDecls]
-    | ret t => simp [heapStep, ilDecls]
+    | comment s => simp [heapStep, heapDecls]
+    | ret t => simp [heapStep, heapDecls]
     | decl ty x rhs =>
-      simp only [heapStep, ilDecls, List.filterMap_cons]
+      simp only [heapStep, heapDecls, List.filterMap_cons]
       cases ilKind ty <;> simp [HNode.key]
 
 theorem run_moves (items : List Item) : (run items).moves = allUses items := by
   simp [run, runFrom_moves, HeapState.init]
 
-theorem run_nodes (items : List Item) : (run items).nodes.map HNode.key = ilDecls items := by
+theorem run_nodes (items : List Item) : (run items).nodes.map HNode.key = heapDecls items := by
   simp [run, runFrom_nodes, HeapState.init]
 
 /-! ### attribution of events -/
@@ -143,17 +143,17 @@ theorem ite_cons_eq_nil {c : Prop} [Decidable c] {a : String} {l r : List String
   · rw [if_pos hc] at h; cases h
   · rw [if_neg hc] at h; exact ⟨hc, h⟩
 
-theorem ilDecls_cons_decl (ty x : String) (rhs : Term) (items : List Item) :
-    ilDecls (.decl ty x rhs :: items) =
-      (match ilKind ty with | some k => (x, k) :: ilDecls items | none => ilDecls items) := by
-  simp only [ilDecls, List.filterMap_cons]
+theorem heapDecls_cons_decl (ty x : String) (rhs : Term) (items : List Item) :
+    heapDecls (.decl ty x rhs :: items) =
+      (match ilKind ty with | some k => (x, k) :: heapDecls items | none => heapDecls items) := by
+  simp only [heapDecls, List.filterMap_cons]
   cases ilKind ty <;> rfl
 
 theorem declProblems_nil (us : List (String × Bool)) (items : List Item) (h : declProblems us items = []) :
-    ∀ x k, (x, k) ∈ ilDecls items →
+    ∀ x k, (x, k) ∈ heapDecls items →
       (k = false → countUses x false us = 1) ∧ (k = true → countUses x false us + countUses x true us = 1) := by
   induction items with
-  | nil => intro x k hx; simp [ilDecls] at hx
+  | nil => intro x k hx; simp [heapDecls] at hx
   | cons it items ih =>
     have hcons : declProblems us (it :: items) = (match it with
       | .decl ty name _ =>
@@ -174,12 +174,12 @@ theorem declProblems_nil (us : List (String × Bool)) (items : List Item) (h : d
       cases it <;> rfl
     rw [hcons] at h
     cases it with
-    | comment s => simpa [ilDecls] using ih h
-    | ret t => simpa [ilDecls] using ih h
+    | comment s => simpa [heapDecls] using ih h
+    | ret t => simpa [heapDecls] using ih h
     | decl ty name rhs =>
       simp only at h
       intro x k hx
-      rw [ilDecls_cons_decl] at hx
+      rw [heapDecls_cons_decl] at hx
       by_cases hp : (ty == "RzILOpPure *" || ty == "RzILOpBool *") = true
       · have hk : ilKind ty = some false := by simp only [ilKind, hp, if_true]
         rw [hk] at hx
@@ -212,6 +212,69 @@ theorem declProblems_nil (us : List (String × Bool)) (items : List Item) (h : d
           rw [hk] at hx
           rw [if_neg he] at h
           exact ih h x k hx
+
+/-! ### converse for pures: a double free is reported -/
+
+theorem declProblems_cons_decl (us : List (String × Bool)) (ty name : String) (rhs : Term) (items : List Item) :
+    declProblems us (.decl ty name rhs :: items) =
+        if ty == "RzILOpPure *" || ty == "RzILOpBool *" then
+          let raw := countUses name false us
+          let dup := countUses name true us
+          if raw == 1 then declProblems us items
+          else if raw == 0 && dup == 0 then s!"pure {name} is initialised but never used (leak)" :: declProblems us items
+          else if raw == 0 then s!"pure {name} is only used through DUP, the original is never consumed (leak)" :: declProblems us items
+          else s!"pure {name} is consumed {raw} times without DUP (double free)" :: declProblems us items
+        else if ty == "RzILOpEffect *" then
+          let n := countUses name false us + countUses name true us
+          if n == 1 then declProblems us items
+          else if n == 0 then s!"effect {name} is initialised but never used (leak)" :: declProblems us items
+          else s!"effect {name} is used {n} times (double free)" :: declProblems us items
+        else declProblems us items := rfl
+
+theorem declProblems_mono (us : List (String × Bool)) (it : Item) (items : List Item) (m : String)
+    (hm : m ∈ declProblems us items) : m ∈ declProblems us (it :: items) := by
+  cases it with
+  | comment s => exact hm
+  | ret t => exact hm
+  | decl ty name rhs =>
+    rw [declProblems_cons_decl]
+    simp only
+    repeat' split
+    all_goals first | exact hm | exact List.mem_cons_of_mem _ hm
+
+theorem declProblems_double_free (us : List (String × Bool)) (items : List Item) (x : String)
+    (hx : (x, false) ∈ heapDecls items) (h2 : 2 ≤ countUses x false us) :
+    s!"pure {x} is consumed {countUses x false us} times without DUP (double free)" ∈ declProblems us items := by
+  induction items with
+  | nil => simp [heapDecls] at hx
+  | cons it items ih =>
+    cases it with
+    | comment s => exact ih (by simpa [heapDecls] using hx)
+    | ret t => exact ih (by simpa [heapDecls] using hx)
+    | decl ty name rhs =>
+      rw [heapDecls_cons_decl] at hx
+      by_cases hp : (ty == "RzILOpPure *" || ty == "RzILOpBool *") = true
+      · have hk : ilKind ty = some false := by simp only [ilKind, hp, if_true]
+        rw [hk] at hx
+        rcases List.mem_cons.mp hx with hx | hx
+        · cases hx
+          rw [declProblems_cons_decl, if_pos hp]
+          have h1 : ¬ (countUses x false us == 1) = true := by simp; omega
+          have h0 : ¬ (countUses x false us == 0) = true := by simp; omega
+          have h00 : ¬ (countUses x false us == 0 && countUses x true us == 0) = true := by simp; omega
+          simp only
+          rw [if_neg h1, if_neg h00, if_neg h0]
+          exact List.mem_cons_self
+        · exact declProblems_mono _ _ _ _ (ih hx)
+      · by_cases he : (ty == "RzILOpEffect *") = true
+        · have hk : ilKind ty = some true := by simp only [ilKind, hp, he, if_true]; rfl
+          rw [hk] at hx
+          rcases List.mem_cons.mp hx with hx | hx
+          · cases hx
+          · exact declProblems_mono _ _ _ _ (ih hx)
+        · have hk : ilKind ty = none := by simp only [ilKind, hp, he]; rfl
+          rw [hk] at hx
+          exact declProblems_mono _ _ _ _ (ih hx)
 
 theorem paramProblems_nil (us : List (String × Bool)) (ps : List Param) (h : paramProblems us ps = []) :
     ∀ p ∈ ps, p.ty = "RZ_BORROW RzILOpPure *" → countUses p.name false us ≤ 1 := by
